@@ -454,9 +454,15 @@ def run(C, R):
                        'buffered values are discarded while other receivers are alive',
                        '%s:%s' % (rd[0][3]['file'], rd[0][3]['line']))
         # R5b: the converse of the counted close - the LAST handle of a side does close, unless the path
-        # has observed that the other side is already gone (its last drop closed the channel)
+        # has observed that the OTHER side is already gone - and that other side's last handle closes without such an
+        # excuse (if both sides may skip, two concurrent last drops each see the other's counter at zero and the
+        # channel stays open with no handle left)
+        excuses = {}    # (shared state, own side) -> set of counters whose load == 0 excused a missing close
+        sides = {}
         for a, f, shared, dropfn in handles:
             hname = a['path'].split('::')[-1]
+            side = 'receivers' if 'Receiver' in hname else 'senders'
+            sides.setdefault((shared, side), []).append(hname)
             for path in E.run(dropfn['path']):
                 if path.exit != 'return':
                     continue
@@ -467,14 +473,37 @@ def run(C, R):
                 if not last:
                     continue
                 closes = [e for e in path.events if e['k'] == 'call' and e['name'] == 'close' and e.get('mode') == 'inline']
-                other_gone = any(e['k'] == 'call' and e['name'] == 'load' and const_of(E, path.facts, e['ret']) == 0
-                                 for e in path.events)
-                if closes or other_gone:
+                gone = set()
+                for e in path.events:
+                    if e['k'] == 'call' and e['name'] == 'load' and const_of(E, path.facts, e['ret']) == 0 \
+                            and e['args'] and e['args'][0][0] == 'ref':
+                        cf = fields_of(e['args'][0][1])
+                        if cf and cf[-1] != side:
+                            gone.add(cf[-1])
+                if closes:
                     R.ok('C11.R5', '%s|last handle closes|%s' % (hname, path_cond(E, path)))
+                elif gone:
+                    excuses.setdefault((shared, side), set()).update(gone)
+                    R.ok('C11.R5', '%s|last handle leaves the close to the other side, seen gone|%s' % (hname, path_cond(E, path)))
                 else:
                     R.fail('C11.R5', [hname, 'last-handle-does-not-close'],
                            'a path on which the last %s is dropped (fetch_sub(1) == 1) does not close the channel' %
                            hname, '%s:%s' % (dropfn['file'], dropfn['line']), {'trace': trace_summary(path)})
+        for (shared, side), gone in sorted(excuses.items()):
+            for other in sorted(gone):
+                if (shared, other) not in sides:
+                    R.fail('C11.R5', [sides[(shared, side)][0], 'close-skipped-on-foreign-counter', other],
+                           'the last %s handle skips the close when `%s` is zero, which is not the handle counter of '
+                           'the other side of %s' % (side[:-1], other, shared), None)
+                elif (shared, other) in excuses:
+                    if side < other:    # one key per pair
+                        R.fail('C11.R5', [shared.split('::')[-1], 'last-handle-close-skipped-on-both-sides'],
+                               'the last %s and the last %s of %s each skip the close when they see the other side\'s '
+                               'counter at zero: dropped concurrently, both decrement first, both see zero, and the '
+                               'channel is never closed although no handle is left (pending futures are never woken)'
+                               % (side[:-1], other[:-1], shared), None)
+                else:
+                    R.ok('C11.R5', '%s|%s may leave the close to %s, which always closes' % (shared, side, other))
         # R7: the variant predicates of the status / error enums say what the variant is
         n7 = 0
         for enum, preds in (('channel::channel_future::CloseStatus',
